@@ -2,7 +2,11 @@ package main
 
 import (
 	"fmt"
+	"os"
+	"strings"
 	"sync"
+
+	"golang.org/x/tools/go/ssa"
 )
 
 // ---------------------------------------------------------------------------------------------
@@ -176,12 +180,190 @@ func (c *Ctx) codecRun() map[string]*simpleVerdict {
 						}
 					}
 				}
+				c.codecStreams(st.name, st.tokenizer, th, state, enc, w, nw, v)
 			}(w)
 		}
 	}
 	wg.Wait()
 	codecMemo = res
 	return res
+}
+
+// codecStreams: the stream clause beyond the bare encoding. (1) CSV state: the tokenizer has a configuration
+// (separators ; | tab blank, several of them, a non-Latin one; one or two quote symbols) and the encoded value
+// stands alone and between two fields of a row, joined by the configuration's separators; the values are made
+// of the configured characters, the default ones and a letter. (2) expression and CSV states: long streams -
+// values of 4 to 13 KB of 2-, 3- and 4-byte characters behind 0 to 3 ASCII letters, so that the characters
+// fall on every byte alignment. Each time the value comes back as exactly one token that decodes to it.
+func (c *Ctx) codecStreams(name, kind string, th *tkHarness, state mv, enc *ssa.Function, w, nw int, v *simpleVerdict) {
+	if th == nil || v.undec != "" {
+		return
+	}
+	m := th.m
+	if why := th.setOptions(1 << 6); why != "" { // DecodeStrings
+		v.undec = why
+		return
+	}
+	defer th.setOptions(0)
+	encode := func(where, s string, q rune) (string, bool) {
+		m.steps = 0
+		e, out := m.Call(enc, state, s, int64(q))
+		if out.kind == "panic" {
+			v.bad = where + ": EncodeString panics: " + out.why
+			return "", false
+		}
+		es, ok := e.(string)
+		if out.kind != "ok" || !ok {
+			v.undec = where + ": EncodeString: " + out.why + " " + catRender(e)
+			return "", false
+		}
+		return es, true
+	}
+	n := 0
+	mine := func() bool { n++; return n%nw == w }
+	if kind == "csv" {
+		runes := func(rs []rune) mv {
+			arr := make([]mv, len(rs))
+			for i, r := range rs {
+				arr[i] = int64(r)
+			}
+			return mSlice{arr}
+		}
+		for _, seps := range [][]rune{{';'}, {'|'}, {'\t'}, {' '}, {',', ';', '|'}, {'\t', ' '}, {'、'}} {
+			for _, qs := range [][]rune{{'"'}, {'\''}, {'"', '\''}, {'\'', '"'}, {'«', '"'}} {
+				if !mine() {
+					continue
+				}
+				cfg := fmt.Sprintf("CSV quote state, tokenizer configured with separators %q and quote symbols %q", string(seps), string(qs))
+				// the setters are called in an order that never makes a separator equal to a configured quote
+				for _, step := range []struct {
+					f  string
+					rs []rune
+				}{{"SetQuoteSymbols", []rune{'\x01'}}, {"SetFieldSeparators", seps}, {"SetQuoteSymbols", qs}} {
+					if _, out := th.call(step.f, runes(step.rs)); out.kind != "ok" {
+						v.undec = fmt.Sprintf("%s: %s(%q): %s %s", cfg, step.f, string(step.rs), out.kind, out.why)
+						return
+					}
+				}
+				alpha := []string{"a", " "}
+				for _, r := range append(append(append([]rune{}, seps...), qs...), ',', '"') {
+					if a := string(r); !strings.Contains(strings.Join(alpha, ""), a) {
+						alpha = append(alpha, a)
+					}
+				}
+				vals := []string{""}
+				for _, a := range alpha {
+					vals = append(vals, a)
+					for _, b := range alpha {
+						vals = append(vals, a+b, "a"+a+b, a+"a"+b, a+b+"a")
+					}
+				}
+				for vi, s := range vals {
+					q := qs[vi%len(qs)]
+					where := fmt.Sprintf("%s, quote %q, string %q", cfg, string(q), s)
+					es, ok := encode(where, s, q)
+					if !ok {
+						continue
+					}
+					sep := string(seps[vi%len(seps)])
+					sep2 := string(seps[(vi/len(seps))%len(seps)])
+					for _, st := range []struct {
+						text string
+						want []string
+					}{{es, []string{s, ""}}, {"x" + sep + es + sep2 + "y", []string{"x", sep, s, sep2, "y", ""}}} {
+						v.runs++
+						r := th.tokenize(st.text)
+						got := []string{}
+						for _, t := range r.toks {
+							got = append(got, t.val)
+						}
+						switch {
+						case r.kind == "panic":
+							v.bad = fmt.Sprintf("%s: tokenizing the stream %q that holds its encoding %q panics: %s", where, st.text, es, r.why)
+						case r.kind != "ok":
+							v.undec = where + ": tokenizing the stream: " + r.why
+						case fmt.Sprintf("%q", got) != fmt.Sprintf("%q", st.want):
+							if v.bad == "" || len(where) < 110 {
+								v.bad = fmt.Sprintf("%s: its encoding %q placed in the stream %q is read back (string decoding on) as [%s]; the statement requires exactly one token for it, with the decoded value %q (values %q)", where, es, st.text, renderToks(r.toks), s, st.want)
+							}
+						}
+					}
+				}
+			}
+		}
+		// back to the default configuration
+		for _, step := range []struct {
+			f  string
+			rs []rune
+		}{{"SetQuoteSymbols", []rune{'\x01'}}, {"SetFieldSeparators", []rune{','}}, {"SetQuoteSymbols", []rune{'"'}}} {
+			th.call(step.f, runes(step.rs))
+		}
+	}
+	// long streams
+	type long struct {
+		unit string
+		pad  int
+		size int // bytes, about
+	}
+	var longs []long
+	units := []string{"é", "€", "😀", "é€😀", "ж\uffee"}
+	for ui, unit := range units {
+		for pad := 0; pad < 4; pad++ {
+			switch {
+			case c.Tier == "thorough":
+				longs = append(longs, long{unit, pad, 4200 + 300*pad}, long{unit, pad, []int{8300, 9000, 12400, 13000}[(ui+pad)%4]})
+			case (ui+pad)%4 == 0 && ui < 4:
+				longs = append(longs, long{unit, pad, 4200})
+			}
+		}
+	}
+	saved := m.maxSteps
+	defer func() { m.maxSteps = saved }()
+	for li, l := range longs {
+		if !mine() {
+			continue
+		}
+		s := "abc"[:l.pad] + strings.Repeat(l.unit, l.size/len(l.unit))
+		q := []rune{'\'', '"'}[li%2]
+		if kind == "csv" {
+			q = '"'
+		}
+		where := fmt.Sprintf("%s quote state, quote %q, string of %d bytes: %q followed by %d times %q", name, string(q), len(s), "abc"[:l.pad], l.size/len(l.unit), l.unit)
+		m.maxSteps = 400000000
+		es, ok := encode(where, s, q)
+		if !ok {
+			continue
+		}
+		v.runs++
+		r := th.tokenize(es)
+		if os.Getenv("MACHDEBUG") != "" {
+			fmt.Fprintf(os.Stderr, "%s: %d steps\n", where, m.steps)
+		}
+		switch {
+		case r.kind == "panic":
+			v.bad = fmt.Sprintf("%s: tokenizing its encoding panics: %s", where, r.why)
+		case r.kind != "ok":
+			v.undec = where + ": tokenizing the encoding: " + r.why
+		case len(r.toks) != 2 || r.toks[1].typ != "Eof":
+			if v.bad == "" {
+				v.bad = fmt.Sprintf("%s: its encoding in a stream is read back as %d tokens, not as one token", where, len(r.toks)-1)
+			}
+		case r.toks[0].val != s:
+			if v.bad == "" || len(where) < 110 {
+				got := []rune(r.toks[0].val)
+				want := []rune(s)
+				i := 0
+				for i < len(got) && i < len(want) && got[i] == want[i] {
+					i++
+				}
+				j := i + 4
+				if j > len(got) {
+					j = len(got)
+				}
+				v.bad = fmt.Sprintf("%s: its encoding in a stream is read back (string decoding on) as one token whose value has %d characters instead of %d and departs from the string at character %d (%q...), near byte %d of the stream", where, len(got), len(want), i, string(got[i:j]), 1+len(string(want[:i])))
+			}
+		}
+	}
 }
 
 func init() {
